@@ -8,7 +8,7 @@ from sa.cfg import all_paths_pass, dominators, reachable, reaches, specialize
 from sa.db import AnalysisError, ClassInfo, FuncInfo, ancestors, bind_args, dotted, src, walk_local
 from sa.flow import defs_reaching, reaching_defs
 from sa.model import contains, enclosing, is_user_func_call, node_classes, superstep_funcs
-from sa.variants import Variant, replace_once, sub_first, sub_once
+from sa.variants import Variant, chain, replace_once, sub_first, sub_once
 
 from .common import call_names, runner_no_raise, vars_from_call
 
@@ -26,6 +26,7 @@ EXPLANATION = (
     "is restored (and its internal key removed) before the state is written; (R8) the in-memory LRU only ever removes entries; (R9) emit "
     "outputs — compared by identity against one module constant — are re-bound to that constant when an entry is served, because a "
     "serialising backend returns a copy. R7 also requires that the routing decision is stored as the gate recorded it and restored as it was stored (readers dispatch on its type)."
+    " R6 also requires that a result is stored under the key the look-up computed before execution (never a key rebuilt afterwards from arguments the node may have changed); the key computation is followed into a helper of the same module."
 )
 NOT_DECIDED = "Equality of cached and uncached runs as such; behaviour of the third-party diskcache store (assumed: stored bytes come back as bytes or as a non-bytes object; its own calls do not raise); that definition_hash distinguishes any two different functions."
 
@@ -581,4 +582,5 @@ VARIANTS = [
     Variant("hit-keeps-unpickled-sentinel", CA, replace_once("    for name in node.outputs[len(node.data_outputs) :]:\n        restored[name] = _EMIT_SENTINEL\n", ""), {"C09.R9"}),
     Variant("lru-evicts-newest", CH, replace_once("            self._data.popitem(last=False)", "            self._data.popitem(last=True)"), {"C09.R8"}),
     Variant("twin-verify-positive-form", CH, replace_once("        if not hmac.compare_digest(stored_hmac, expected_hmac):\n            logger.warning(\n                \"Cache HMAC mismatch for key %s — possible tampering, evicting\",\n                key,\n            )\n            self._cache.delete(key)\n            self._cache.delete(key + self._HMAC_SUFFIX)\n            return False, None\n", "        verified = hmac.compare_digest(stored_hmac, expected_hmac)\n        if not verified:\n            self._cache.delete(key)\n            self._cache.delete(key + self._HMAC_SUFFIX)\n            return False, None\n"), set()),
+    Variant("store-key-rebuilt-after-execution", CA, chain(replace_once("    cache.set(cache_key, to_cache)", "    from hypergraph.cache import compute_cache_key\n\n    cache.set(compute_cache_key(node.definition_hash, to_cache) or cache_key, to_cache)")), {"C09.R6"}),
 ]
